@@ -87,9 +87,20 @@ def _fresh_child(func, case, case_timeout):
     return res
 
 
+def _ensure_scratch():
+    """the scratch directory (TMPDIR) of the running check must exist whatever another process did to .work/ meanwhile"""
+    d = os.environ.get("TMPDIR")
+    if d:
+        try:
+            os.makedirs(d, exist_ok=True)
+        except OSError:
+            pass
+
+
 def _worker(func, cases, idxs, fresh, case_timeout, wfd):
     out = []
     for i in idxs:
+        _ensure_scratch()
         if fresh:
             out.append((i, _fresh_child(func, cases[i], case_timeout)))
         else:
